@@ -166,10 +166,18 @@ def to_lib(v):
             kw[f] = to_lib(x)
     if c in ('vmc_std', 'vmc_envelope'):
         kw['cdata'] = lib_ctl(v.get('cdata', NO_CTL))
-    return VmCont(c, **kw)
+    # keyword arguments in any order (a continuation's fields are named, not positional)
+    ks = list(kw)
+    ORDER[0] = (ORDER[0] * 7 + 3) % 11
+    if ORDER[0] % 3 == 1:
+        ks.reverse()
+    elif ORDER[0] % 3 == 2:
+        ks = ks[1:] + ks[:1]
+    return VmCont(c, **{k_: kw[k_] for k_ in ks})
 
 
 BUDGET = [0]
+ORDER = [0]
 SHARED = {}          # 'share' label -> the one library object standing for it (per stack)
 
 
@@ -314,6 +322,42 @@ def generate(tier, seed, ctx):
             raise
         except Exception as e:
             rec['err'] = type(e).__name__
+        out.append(rec)
+    # a serialisation that FAILS (an entry no cell can hold somewhere in the stack) leaves the caller's list as it was: the caller
+    # takes the offending entry out and sends the rest
+    nfail = 0
+    for val in [clean(x) for x in stacks]:
+        if nfail >= (25 if q else 300) or not (2 <= len(val) <= 6) or any(v['k'] == 'slicewin' for v in val):
+            continue
+        nfail += 1
+        BUDGET[0] = 200000
+        rec = {'op': 'vm_ser', 'val': val, 'tags': ['after_a_failed_serialisation_of_the_same_list']}
+        try:
+            SHARED.clear()
+            data = [to_lib(v) for v in val]
+            bad = [2 ** 256 + nfail, VmTuple(list(range(700)))][nfail % 2]
+            k = rng.randrange(len(data))
+            data.insert(k, bad)
+            try:
+                VmStack.serialize(data)
+                failed = False
+            except RecursionError:
+                failed = True
+            except Exception:
+                failed = True
+            if not failed:
+                continue
+            n_after = len(data)
+            data[:] = [x for x in data if x is not bad]
+            rec['after_failed_len_ok'] = bool(n_after == len(val) + 1)
+            c1 = VmStack.serialize(data)
+            after = [of_lib(x) for x in data]
+            c2 = VmStack.serialize(data)
+            rec['out'] = {'tree': tlbkit.cell_tree(c1), 'tree2': tlbkit.cell_tree(c2), 'after': after}
+        except RecursionError:
+            raise
+        except Exception as e:
+            rec['out'] = {'err': type(e).__name__}
         out.append(rec)
     # edit histories: serialise, change a value NESTED inside a tuple in place (append to an inner tuple, store into an inner
     # builder), serialise the same caller objects again: the second cell must be the encoding of the values as they are now
